@@ -99,6 +99,14 @@ func errS(err error) string {
 	return err.Error()
 }
 
+// fmtParams prints a parameter list; a nil and an empty list are the same list.
+func fmtParams(p []any) string {
+	if len(p) == 0 {
+		return "[]"
+	}
+	return fmt.Sprintf("%#v", p)
+}
+
 // doOp runs one operation and returns a canonical result string.
 func (e *env) doOp(op int, in *input) (res string) {
 	defer func() {
@@ -131,7 +139,7 @@ func (e *env) doOp(op int, in *input) (res string) {
 		} else {
 			s, p, err = lucene.ToParameterizedPostgres(in.query, sharedDF)
 		}
-		return fmt.Sprintf("%s | %#v | %s", s, p, errS(err))
+		return fmt.Sprintf("%s | %s | %s", s, fmtParams(p), errS(err))
 	}
 	if in.tree == nil {
 		return "no-tree"
@@ -142,7 +150,7 @@ func (e *env) doOp(op int, in *input) (res string) {
 		return s + " | " + errS(err)
 	case "renderparam":
 		s, p, err := driver.NewPostgresDriver().RenderParam(in.tree)
-		return fmt.Sprintf("%s | %#v | %s", s, p, errS(err))
+		return fmt.Sprintf("%s | %s | %s", s, fmtParams(p), errS(err))
 	case "string":
 		return in.tree.String()
 	case "gostring":
@@ -291,20 +299,36 @@ func prepare(seed uint64, corpus int) (*prepared, *report.Failure) {
 		if strings.HasPrefix(in.query, "\x00") {
 			continue
 		}
-		var want, wantP string
-		if t, err := parse(in.query, in.df); err != nil {
-			want, wantP = " | "+err.Error(), fmt.Sprintf(" | %#v | %s", []any(nil), err.Error())
-		} else {
+		// outcome of the composition: SQL and parameters on success, "failed" otherwise
+		// (no property fixes the text or type of an error, nor what accompanies it)
+		outcome := func(sql string, params []any, err error) string {
+			if err != nil {
+				return "failed"
+			}
+			return sql + " | " + fmtParams(params)
+		}
+		want, wantP := "failed", "failed"
+		if t, err := parse(in.query, in.df); err == nil {
 			s, rerr := driver.NewPostgresDriver().Render(t)
-			want = s + " | " + errS(rerr)
+			want = outcome(s, nil, rerr)
 			ps, pp, perr := driver.NewPostgresDriver().RenderParam(t)
-			wantP = fmt.Sprintf("%s | %#v | %s", ps, pp, errS(perr))
+			wantP = outcome(ps, pp, perr)
 		}
-		if got := ref[i*nop+1]; got != want {
-			return nil, report.Failf("wrapper-differs", "ToPostgres(%q, df=%q) returned %q but Parse followed by Render gives %q", in.query, in.df, got, want)
+		var gs, gps string
+		var gpp []any
+		var gerr, gperr error
+		if in.df == "" {
+			gs, gerr = lucene.ToPostgres(in.query)
+			gps, gpp, gperr = lucene.ToParameterizedPostgres(in.query)
+		} else {
+			gs, gerr = lucene.ToPostgres(in.query, sharedDF)
+			gps, gpp, gperr = lucene.ToParameterizedPostgres(in.query, sharedDF)
 		}
-		if got := ref[i*nop+2]; got != wantP {
-			return nil, report.Failf("wrapper-differs", "ToParameterizedPostgres(%q, df=%q) returned %q but Parse followed by RenderParam gives %q", in.query, in.df, got, wantP)
+		if got := outcome(gs, nil, gerr); got != want {
+			return nil, report.Failf("wrapper-differs", "ToPostgres(%q, df=%q) gives %q (%v) but Parse followed by Render gives %q", in.query, in.df, got, gerr, want)
+		}
+		if got := outcome(gps, gpp, gperr); got != wantP {
+			return nil, report.Failf("wrapper-differs", "ToParameterizedPostgres(%q, df=%q) gives %q (%v) but Parse followed by RenderParam gives %q", in.query, in.df, got, gperr, wantP)
 		}
 	}
 	p := &prepared{e, ref}
